@@ -460,6 +460,7 @@ func (e *Engine) runBlocks(fr *Frame, start *ssa.BasicBlock, st *State, region m
 			in[to] = append(in[to], ns)
 		}
 		for _, instr := range b.Instrs {
+			e.curInstr = instr
 			switch x := instr.(type) {
 			case *ssa.If:
 				c := e.val(fr, x.Cond).(T)
